@@ -18,6 +18,8 @@ func sqlDriver(args []string) error {
 	switch args[0] {
 	case "c06":
 		return sqlC06(args[1:])
+	case "c03":
+		return sqlC03(args[1:])
 	}
 	return fmt.Errorf("unknown sql workload %s", args[0])
 }
